@@ -45,3 +45,37 @@ func Ob_C19_ReportFaults() {
 			sh.CreatedAt+sh.Duration > uint64(w.Height()))
 	}
 }
+
+// C19 MsgReportFaults with two entries: every entry is validated on its own - a well-formed first entry does not
+// wave a second one through (no more fault records are written than entries pass the reference validity check).
+func Ob_C19_ReportFaults_TwoEntries() {
+	w := NewWorld()
+	sym.SetBound(".Faults", 2)
+	sym.SetBound("Order.Shards", 1)
+	var msg saotypes.MsgReportFaults
+	sym.Fill("msg", &msg)
+	sym.Assume(len(msg.Faults) == 2 && msg.Faults[0] != nil && msg.Faults[1] != nil)
+	sym.Assume(msg.Faults[0].ShardId != msg.Faults[1].ShardId)
+	valid := 0
+	for _, f := range msg.Faults {
+		_, hasMeta := w.Model.GetMetadata(w.Ctx, f.DataId)
+		o, hasOrder := w.Order.GetOrder(w.Ctx, f.OrderId)
+		sh, hasShard := w.Order.GetShard(w.Ctx, f.ShardId)
+		if hasMeta && hasOrder && hasShard && o.DataId == f.DataId && msg.Provider == f.Provider && inListU64(f.ShardId, o.Shards) &&
+			sh.Sp == f.Provider && sh.CreatedAt+sh.Duration > uint64(w.Height()) {
+			valid++
+		}
+	}
+	snap := w.Snapshot()
+	var err error
+	panicked, _ := sym.Catch(func() { _, err = w.SaoMsg.ReportFaults(sdk.WrapSDKContext(w.Ctx), &msg) })
+	if panicked || err != nil {
+		return
+	}
+	sym.Cover("C19.report-two-returns")
+	written := len(w.WrittenString(snap, "node", nodetypes.FaultIdKeyPrefix, ""))
+	sym.Assert("C19.no-more-records-than-valid-entries", written <= valid)
+	if valid == 1 && written == 1 {
+		sym.Cover("C19.one-of-two-recorded")
+	}
+}
